@@ -168,9 +168,7 @@ fn pairs(tier: Tier) -> Vec<(f64, f64)> {
     let mut v = Vec::new();
     for (i, o) in ORIGS.iter().enumerate() {
         for (j, m) in MAXES.iter().enumerate() {
-            if tier == Tier::Quick && (i + j) % 3 != 0 {
-                continue;
-            }
+            let _ = (i, j, tier);
             v.push((*o, *m));
         }
     }
